@@ -59,8 +59,8 @@ var basicTypes = map[string]types.Type{
 }
 
 var builtinFns = map[string]bool{"len": true, "cap": true, "old": true, "region": true, "offset": true, "fresh": true, "allocated": true,
-	"rsize": true, "istype": true, "astype": true, "bytes": true, "same": true, "addr": true, "avail": true, "typeid": true, "strof": true,
-	"nilslice": true, "maplen": true, "bytesof": true, "isnil": true, "implements": true, "snap": true, "eqbytes": true, "writable": true}
+	"rsize": true, "istype": true, "astype": true, "bytesat": true, "same": true, "addr": true, "avail": true, "typeid": true, "strof": true,
+	"nilslice": true, "maplen": true, "bytesof": true, "isnil": true, "implements": true, "snap": true, "eqbytes": true, "writable": true, "apply": true, "ufbool": true, "ufint": true, "ufstr": true}
 
 func (en *Env) importPath(name string) string {
 	if name == "vs" {
@@ -794,9 +794,11 @@ func (en *Env) call(c ECall) TV {
 				return TV{V: VScalar{Eq(v.Reg, e.ar.IConst(0))}, T: boolT}
 			case VRef:
 				return TV{V: VScalar{Eq(v.T, e.ar.IConst(0))}, T: boolT}
+			case VFunc:
+				return TV{V: VScalar{Eq(e.funcTerm(v), e.ar.IConst(0))}, T: boolT}
 			}
 			en.fail("isnil of %T", a.V)
-		case "bytes":
+		case "bytesat":
 			// bytes(p, n): the n bytes an unsafe pointer points at, as a slice value
 			a := en.eval(c.Args[0])
 			p, ok := a.V.(VPtr)
@@ -846,6 +848,68 @@ func (en *Env) call(c ECall) TV {
 			sel := Select(aArr, j)
 			body := Implies(in, Eq(sel, Select(bArr, e.ar.Bin(token.ADD, tInt, bBase, e.ar.Bin(token.SUB, tInt, j, aBase)))))
 			return TV{V: VScalar{Forall([]*Term{j}, body, sel)}, T: boolT}
+		case "ufbool", "ufint", "ufstr":
+			// uninterpreted (but deterministic) functions of their arguments, named by a string literal
+			nm := en.eval(c.Args[0])
+			if nm.Untyped == nil || nm.Untyped.Kind() != constant.String {
+				en.fail("%s: first argument must be a string literal naming the function", f.Builtin)
+			}
+			name := "uf_" + strings.Map(func(r rune) rune {
+				if r >= 'a' && r <= 'z' || r >= 'A' && r <= 'Z' || r >= '0' && r <= '9' {
+					return r
+				}
+				return '_'
+			}, constant.StringVal(nm.Untyped))
+			var flat []*Term
+			for _, a := range c.Args[1:] {
+				tv := en.defaultType(en.eval(a))
+				flat = append(flat, e.toLeaves(tv.T, tv.V)...)
+			}
+			switch f.Builtin {
+			case "ufbool":
+				return TV{V: VScalar{App(name, BoolSort, flat...)}, T: boolT}
+			case "ufint":
+				return TV{V: VScalar{App(name, e.ar.I(), flat...)}, T: intT}
+			}
+			strT := types.Typ[types.String]
+			ls := e.leaves(strT)
+			ts := make([]*Term, len(ls))
+			for j, l := range ls {
+				ts[j] = App(name+"_"+l.Name, l.S, flat...)
+			}
+			sv := e.fromLeaves(strT, ts).(VString)
+			if len(en.bound) == 0 {
+				st.assume(st.stringWF(sv))
+			}
+			return TV{V: sv, T: strT}
+		case "apply":
+			// apply(f, args...): the (first) result of calling the function value f, as modelled for
+			// calls through function values (a deterministic function of f and the arguments)
+			fv := en.eval(c.Args[0])
+			sig, ok := fv.T.Underlying().(*types.Signature)
+			if !ok || sig.Results().Len() < 1 {
+				en.fail("apply needs a function value with a result")
+			}
+			vf, _ := fv.V.(VFunc)
+			flat := []*Term{e.funcTerm(vf)}
+			for i, a := range c.Args[1:] {
+				tv := en.eval(a)
+				pt := sig.Params().At(i).Type()
+				if tv.V == nil {
+					tv = en.coerce(tv, pt)
+				}
+				if isIface(pt) && !isIface(tv.T) {
+					tv = TV{V: en.x.makeIface(st, tv.T, tv.V), T: pt}
+				}
+				flat = append(flat, e.toLeaves(pt, tv.V)...)
+			}
+			rt := sig.Results().At(0).Type()
+			ls := e.leaves(rt)
+			ts := make([]*Term, len(ls))
+			for j, l := range ls {
+				ts[j] = App(fmt.Sprintf("apply_%d_%d_%s", 0, j, sortKey(l.S)), l.S, flat...)
+			}
+			return TV{V: e.fromLeaves(rt, ts), T: rt}
 		case "writable":
 			// writable(b): the region of b is memory handed out for the client to write
 			a := en.eval(c.Args[0])
